@@ -16,6 +16,8 @@ kind 0: any one-shot serializer (+ converter) as a black box.  `res` / `dgram` i
    [8, n, token, rw, rt]  the peer sends a LARGE datagram of n bytes (UDPNetworkClient over AF_INET6: up to 65527); rw/rt =
         fresh-protocol result for the whole datagram / for its first MAX_DATAGRAM_BUFSIZE bytes (model: rw iff n <= recv size)
    [9, pkt]  send_packet(pkt) where serializing pkt raises (RuntimeError, nothing sent, nothing remembered)
+   [12]  the asyncio transport under AsyncUDPNetworkClient is aborted (transport.abort(): what asyncio does on a fatal
+         error) without the adapter's aclose(): what is already queued must still be delivered, then receives fail
    [11]  next() on the client's ONE iter_received_packets(timeout=0) iterator (UDP clients): iteration goes on after a
          parse error; an OSError (nothing queued, socket error) only ends that call (StopIteration -> [3])
 case input = [kind, cfg, ops, impl, endpoint code, bufopt]; bufopt = [n]: SocketDatagramTransport(max_datagram_size=n).
@@ -644,6 +646,11 @@ def _run_async(kind, cfg, ops, impl):
             for op in ops:
                 if op[0] == 11:
                     out.append([await iter_next()])
+                elif op[0] == 12:
+                    captured[-1][0].abort()
+                    for _ in range(3):
+                        await asyncio.sleep(0)
+                    out.append([])
                 elif op[0] == 0:
                     peer_send(op[1])
                     for _ in range(settle):
@@ -866,8 +873,20 @@ def _schedule(rng, dgrams, sends, endpoint=b"sync-endpoint"):
     feats = set()
     last_item_unread_dgram = False
     nerr = 0
+    abort_at_end = endpoint == b"async-udp-client" and rng.random() < 0.25
+    aborted = False
     while todo or queued:
         r = rng.random()
+        if abort_at_end and not aborted and not todo and queued:
+            ops.append([12])
+            aborted = True
+            sends = []
+            feats.add("transport-aborted-with-queued-datagrams")
+            continue
+        if aborted:
+            ops.append([11] if use_iter and rng.random() < 0.5 else [3])
+            queued -= 1
+            continue
         if todo and (r < 0.45 or not queued):
             ops.append(todo.pop(0))
             queued += 1
@@ -895,7 +914,9 @@ def _schedule(rng, dgrams, sends, endpoint=b"sync-endpoint"):
             if not queued:
                 last_item_unread_dgram = False
     ops.extend(sends)
-    if rng.random() < 0.3:
+    if aborted:
+        ops.append([3])
+    elif rng.random() < 0.3:
         ops.append([6] if is_async and rng.random() < 0.5 else [3])
     return ops, feats
 
@@ -916,7 +937,7 @@ def _mk_case(kind, cfg, ops, impl, tags, feats, bufopt=()):
         feats.add("bad-then-good")
     if "client-iterator" in feats and any(op[0] == 0 and not op[3] for op in ops):
         feats = set(feats) | {"iterator-continues-after-parse-error"}
-    interesting = {"burst", "bad-then-good", "iterator-continues-after-parse-error", "structure-aware-pickle", "limit-smaller-than-packet", "partial-separator", "codec-padding-byte-inside-payload", "decoder-limit-input", "send-after-failed-send", "large-datagram", "small-recv-size", "recv-cancelled-with-data", "sock-error-after-unread-datagram",
+    interesting = {"burst", "bad-then-good", "transport-aborted-with-queued-datagrams", "iterator-continues-after-parse-error", "structure-aware-pickle", "limit-smaller-than-packet", "partial-separator", "codec-padding-byte-inside-payload", "decoder-limit-input", "send-after-failed-send", "large-datagram", "small-recv-size", "recv-cancelled-with-data", "sock-error-after-unread-datagram",
                    "send-confusable", "send-mutated"}
     return dict(input=[kind, cfg, clean, impl, endpoint_code(impl), list(bufopt)],
                 tags=tags + sorted(feats) + [f"datagrams{len(arr)}"], nontrivial=bool(feats & interesting))
@@ -1283,7 +1304,23 @@ def oracle(inp):
 
     bufopt = inp[5] if len(inp) > 5 else []
     sent_as = {}        # datagram -> the packet it is the serialization of (kind 0 arrivals carrying their packet)
+    aborted = False
     for op, res in zip(ops, out):
+        if op[0] == 12:
+            aborted = True
+            continue
+        if aborted and op[0] in (3, 11):
+            r = res[0]
+            if not queue:
+                if r not in ([6, 1], [3]):
+                    return f"phantom: receive on an aborted transport with nothing queued returned {r!r}"
+                continue
+            if op[0] == 11 and queue[0] == "ERR" and r == [3]:
+                queue.pop(0)            # the queued socket error ended this call of the iterator
+                continue
+            if r in ([6, 1], [3]):
+                return (f"lost-at-close: {len(queue)} item(s) were already queued when the transport was aborted but the "
+                        f"receive failed with the closed-transport error")
         if op[0] == 0:
             if kind == 0 and len(op) > 3 and op[3]:
                 sent_as[op[1]] = op[3][0]
